@@ -101,7 +101,12 @@ def gen_case(rng, structured=None):
                     p.update(of=o['name'], wrt=wn)
                     c['partials'].append(p)
     case = {'kind': 'asm', 'ext': ext, 'comps': comps}
-    # update sequence: real, (complex-step on, complex values), real again ...
+    return finish_case(case, rng)
+
+
+def finish_case(case, rng):
+    """values: update sequence (real, complex-step on with complex values, real again ...), vectors, mask"""
+    comps = case['comps']
     ups = []
     cs_now = False
     for u in range(rng.randrange(1, 4)):
@@ -133,6 +138,44 @@ def gen_case(rng, structured=None):
         pos = sorted(rng.sample(range(nin), rng.randrange(0, nin + 1))) if nin else []
         case['mask'] = {'t': 'arr', 'pos': pos}
     return case
+
+
+def gen_shared_case(rng):
+    """Structured stream: several inputs of one component read DISJOINT parts of one source, with different unit
+    factors — their sub-jacobians share one (row block, column block) of dr/do without any repeated index."""
+    case = gen_case(rng)
+    n_src = rng.randrange(2, 5)
+    src = {'name': 'c8', 'implicit': rng.random() < 0.3, 'inputs': [], 'partials': [],
+           'outputs': [{'name': 'o0', 'size': n_src, 'units': rng.choice(['m', 'dyA', 'dyB'])}]}
+    idx = list(range(n_src))
+    rng.shuffle(idx)
+    cut = rng.randrange(1, n_src)
+    parts = [idx[:cut], idx[cut:]]
+    if len(parts[1]) > 1 and rng.random() < 0.4:
+        c2 = rng.randrange(1, len(parts[1]))
+        parts = [parts[0], parts[1][:c2], parts[1][c2:]]
+    tgt = {'name': 'c9', 'implicit': rng.random() < 0.5, 'inputs': [], 'partials': [],
+           'outputs': [{'name': 'o0', 'size': rng.randrange(1, 4), 'units': None}]}
+    for j, part in enumerate(parts):
+        tgt['inputs'].append({'name': 'i%d' % j, 'src': 'c8.o0', 'src_indices': part, 'size': len(part),
+                              'units': rng.choice([None, 'm', 'dyA', 'dyB'])})
+        p = gen_pattern(rng, tgt['outputs'][0]['size'], len(part), ['dense', 'dense', 'dense', 'rc', 'diag', 'coo'])
+        p.update(of='o0', wrt='i%d' % j)
+        tgt['partials'].append(p)
+    if tgt['implicit']:
+        p = gen_pattern(rng, tgt['outputs'][0]['size'], tgt['outputs'][0]['size'], ['dense', 'diag'])
+        p.update(of='o0', wrt='o0')
+        tgt['partials'].append(p)
+    if src['implicit']:
+        p = {'kind': 'diag', 'of': 'o0', 'wrt': 'o0'}
+        src['partials'].append(p)
+    case['comps'] = case['comps'][:1] + [src, tgt]
+    # inputs of the kept random component may only refer to components that still exist
+    for i in case['comps'][0]['inputs']:
+        if i['src'] and not i['src'].startswith('ext.') :
+            i['src'], i['src_indices'] = 'c8.o0', [rng.randrange(n_src) for _ in range(i['size'])]
+            i['units'] = rng.choice([None, 'm', 'dyB'])
+    return finish_case(case, rng)
 
 
 # ----------------------------------------------------------------------------- intent: layout and sub-jacobians
@@ -279,11 +322,11 @@ class C11(Spec):
         self.aux = {}
 
     def gen(self, tier, rng):
-        n = 160 if tier == 'quick' else 3000
-        return [gen_case(rng) for _ in range(n)]
+        n = 120 if tier == 'quick' else 2400
+        return [gen_shared_case(rng) for _ in range(n // 3)] + [gen_case(rng) for _ in range(n)]
 
     def search_gen(self, tier, rng):
-        return [gen_case(rng) for _ in range(400)]
+        return [gen_shared_case(rng) for _ in range(150)] + [gen_case(rng) for _ in range(300)]
 
     def compare_case(self, case, res):
         if res.get('res', '__none__') == '__none__':
